@@ -51,24 +51,39 @@ Definition utf8_encode (r : Z) : bytes :=
 Inductive coerce_kind := CoInt64ToBool | CoStringToFloat.
 
 (* config/sql.Config = internal/io/sql.SQLConfig.  q_coerce = None is the nil CoerceMap; Some l is
-   the map built by Coerce(pairs...) — a later pair for the same column replaces an earlier one. *)
+   the map built by Coerce(pairs...) — a later pair for the same column replaces an earlier one.
+   The function of a pair may be MISSING (None: the Go value nil, which is what config/sql.Coerce stores
+   for a CoercePair whose Type is none of the constants, e.g. CoercePair{Column: name}). *)
 Record sql_config := mkCfg {
   q_table : bytes;
   q_escape : Z;                 (* EscapeChar rune; 0 = none *)
   q_incr : bool;                (* Incrementing *)
   q_precision : Z;
-  q_coerce : option (list (bytes * coerce_kind))
+  q_coerce : option (list (bytes * option coerce_kind))
 }.
 
-Fixpoint coerce_lookup (m : list (bytes * coerce_kind)) (name : bytes) : option coerce_kind :=
+(* fn, ok := conf.CoerceMap[name]: None = no entry (ok false); Some None = an entry without function *)
+Fixpoint coerce_find (m : list (bytes * option coerce_kind)) (name : bytes) : option (option coerce_kind) :=
   match m with
   | [] => None
   | (n, k) :: m' =>
-      match coerce_lookup m' name with
+      match coerce_find m' name with
       | Some k' => Some k'           (* the last pair wins *)
       | None => if bytes_eqb n name then Some k else None
       end
   end.
+
+(* the function the entry for name carries, if any *)
+Definition coerce_lookup (m : list (bytes * option coerce_kind)) (name : bytes) : option coerce_kind :=
+  match coerce_find m name with Some (Some k) => Some k | _ => None end.
+
+(* the entry of the configuration for a column name *)
+Definition coerce_entry (conf : sql_config) (name : bytes) : option (option coerce_kind) :=
+  match q_coerce conf with Some m => coerce_find m name | None => None end.
+
+(* one of the names has an entry without function *)
+Definition coerce_nil_hit (conf : sql_config) (names : list bytes) : bool :=
+  existsb (fun name => match coerce_entry conf name with Some None => true | _ => false end) names.
 
 (* ------------------------------------------------------------------ stmt.go *)
 
@@ -310,14 +325,30 @@ Section WithFloatFunctions.
     | _, _ => Fail         (* sql: expected %d destination arguments in Scan, not %d *)
     end.
 
-  (* for _, name := range names { col := &Column{precision}; if conf.CoerceMap != nil { fn, ok := map[name]; ... } } *)
-  Definition alloc_columns (names : list bytes) (conf : sql_config) : list column :=
+  (* the columns the allocation loop builds when it runs to its end: precision and the function of the entry *)
+  Definition alloc_plain (names : list bytes) (conf : sql_config) : list column :=
     map (fun name =>
            new_column (q_precision conf)
                       (match q_coerce conf with
                        | Some m => coerce_lookup m name
                        | None => None
                        end)) names.
+
+  (* for _, name := range names { col := &Column{precision}; if conf.CoerceMap != nil { fn, ok := map[name];
+       if ok { if fn == nil { return nil, colNames, error }; col.coerce = fn(col) } }; columns = append(columns, col) }
+     An entry without function for a column of the result set is an error; an entry for an absent column is
+     never looked at. *)
+  Fixpoint alloc_columns (names : list bytes) (conf : sql_config) : outcome (list column) :=
+    match names with
+    | [] => Ok []
+    | name :: rest =>
+        match coerce_entry conf name with
+        | Some None => Fail
+        | e =>
+            do cs <- alloc_columns rest conf;
+            Ok (new_column (q_precision conf) (match e with Some (Some k) => Some k | _ => None end) :: cs)
+        end
+    end.
 
   (* The "ensure any column in the coercion map exists" block AS WRITTEN:
        for name := range conf.CoerceMap { for _, colName := range colNames { ... } }
@@ -329,7 +360,7 @@ Section WithFloatFunctions.
     | [] => true
     | cn :: _ => if bytes_eqb name cn then true else false    (* return error at the first colName that differs *)
     end.
-  Definition coerce_check (m : list (bytes * coerce_kind)) (colNames : list bytes) : bool :=
+  Definition coerce_check (m : list (bytes * option coerce_kind)) (colNames : list bytes) : bool :=
     forallb (fun p => coerce_check_inner (fst p) colNames) m.
 
   (* One iteration of  for rows.Next() { ... }.  State: (columns, colNames); columns == nil is [] *)
@@ -339,7 +370,7 @@ Section WithFloatFunctions.
     do st1 <-
       (match columns with
        | [] =>
-           let cols := alloc_columns names conf in
+           do cols <- alloc_columns names conf;
            if (match q_coerce conf with Some m => coerce_check m colNames | None => true end)
            then Ok (cols, names) else Fail
        | _ => Ok (columns, colNames)
